@@ -319,3 +319,146 @@ def match_known(known, pid, rule, construct):
         if k["property"] == pid and k["rule"] == rule and k["construct"] == construct:
             return k
     return None
+
+
+# ------------------------------------------------------------------------------------------------------------------
+# Copy propagation for name-independent matching: a wiring rule should talk about WHAT reaches a call, not about what the
+# local variable in between happens to be called.
+
+class Inliner:
+    """substitutes single-assignment locals of one function by their defining expressions (tuple unpacking becomes `<call>[i]`),
+    so that `x = f(a); g(x)` and `y = f(a); g(y)` and `g(f(a))` all read `g(f(a))`"""
+
+    def __init__(self, fn, max_depth=10):
+        self.fn = fn
+        self.max_depth = max_depth
+        self.defs = {}
+        self.params = set()
+        if isinstance(fn, (ast.FunctionDef, ast.AsyncFunctionDef)):
+            a = fn.args
+            self.params = {x.arg for x in a.args + a.kwonlyargs + a.posonlyargs}
+            if a.vararg:
+                self.params.add(a.vararg.arg)
+            if a.kwarg:
+                self.params.add(a.kwarg.arg)
+        nodes = list(walk_no_nested(fn)) if isinstance(fn, (ast.FunctionDef, ast.AsyncFunctionDef)) else list(ast.walk(fn))
+        for st in nodes:
+            if isinstance(st, ast.Assign):
+                for t in st.targets:
+                    self._bind(t, st.value)
+            elif isinstance(st, ast.AnnAssign) and st.value is not None:
+                self._bind(st.target, st.value)
+            elif isinstance(st, ast.AugAssign):
+                self._kill(st.target)
+            elif isinstance(st, (ast.For, ast.AsyncFor)):
+                self._kill(st.target)
+            elif isinstance(st, (ast.With, ast.AsyncWith)):
+                for it in st.items:
+                    if it.optional_vars is not None:
+                        self._kill(it.optional_vars)
+            elif isinstance(st, ast.comprehension):
+                self._kill(st.target)
+            elif isinstance(st, ast.NamedExpr):
+                self._kill(st.target)
+
+    def _bind(self, t, value):
+        if isinstance(t, ast.Name):
+            self.defs.setdefault(t.id, []).append(value)
+        elif isinstance(t, (ast.Tuple, ast.List)):
+            for i, e in enumerate(t.elts):
+                if isinstance(e, ast.Starred):
+                    self._kill(e.value)
+                else:
+                    self._bind(e, ast.Subscript(value=value, slice=ast.Constant(value=i), ctx=ast.Load()))
+
+    def _kill(self, t):
+        for n in ast.walk(t):
+            if isinstance(n, ast.Name):
+                self.defs.setdefault(n.id, []).append(None)
+
+    def single(self, name):
+        d = self.defs.get(name)
+        if name in self.params or not d or len(d) != 1 or d[0] is None:
+            return None
+        return d[0]
+
+    def expr(self, e, depth=0, stack=()):
+        import copy
+        me = self
+
+        class T(ast.NodeTransformer):
+            def visit_Name(self, n):
+                if isinstance(n.ctx, ast.Load) and n.id not in stack and depth < me.max_depth:
+                    d = me.single(n.id)
+                    if d is not None:
+                        return me.expr(d, depth + 1, stack + (n.id,))
+                return n
+
+            def visit_Lambda(self, n):
+                return n
+
+        return T().visit(_strip_parents(e))
+
+    def src(self, e):
+        return norm_src(self.expr(e))
+
+    def alternatives(self, e, limit=32):
+        """all texts `e` can stand for when locals assigned on several branches are followed through each of their definitions
+        (loop targets / augmented names stay as they are); None if there are more than `limit`"""
+        import itertools
+        multi = []
+        seen = set()
+
+        def collect(node, depth=0):
+            for n in ast.walk(node):
+                if isinstance(n, ast.Name) and isinstance(n.ctx, ast.Load) and n.id not in self.params and n.id not in seen:
+                    d = self.defs.get(n.id)
+                    if d and all(x is not None for x in d):
+                        seen.add(n.id)
+                        if len(d) > 1:
+                            multi.append(n.id)
+                        if depth < self.max_depth:
+                            for x in d:
+                                collect(x, depth + 1)
+
+        collect(e)
+        if not multi:
+            return [self.src(e)]
+        choices = [self.defs[m] for m in multi]
+        total = 1
+        for c in choices:
+            total *= len(c)
+        if total > limit:
+            return None
+        out = []
+        saved = {m: self.defs[m] for m in multi}
+        try:
+            for combo in itertools.product(*choices):
+                for m, d in zip(multi, combo):
+                    self.defs[m] = [d]
+                t = self.src(e)
+                if t not in out:
+                    out.append(t)
+        finally:
+            self.defs.update(saved)
+        return out
+
+
+def _strip_parents(e):
+    """deepcopy must not follow the `_parent` back-links: detach them on a shallow structural copy"""
+    import copy
+
+    def clone(n):
+        if isinstance(n, ast.AST):
+            new = type(n)()
+            for f, v in ast.iter_fields(n):
+                setattr(new, f, clone(v))
+            for a in ("lineno", "col_offset", "end_lineno", "end_col_offset"):
+                if hasattr(n, a):
+                    setattr(new, a, getattr(n, a))
+            return new
+        if isinstance(n, list):
+            return [clone(x) for x in n]
+        return n
+
+    return clone(e)
